@@ -128,7 +128,6 @@ def run(ctx):
             ctx.regime('k0_band')
         logm = np.log10(tgrid)
         # float32 memmap: fluxes rounded to float32 and log10 evaluated in float32
-        delta = 3e-7 * (1 + float(np.max(np.abs(logm)))) if (memmap and is_v2) else 0.0
         nb = len(wav)
         # the A_V range is a constructor argument of the Fitter (the docs say it cannot be changed afterwards), so one
         # Fitter is built per range; all of them stay alive and are used alternately, source after source
@@ -140,6 +139,8 @@ def run(ctx):
         try:
             for (lo, hi) in ranges:
                 fitters.append(gen.make_fitter(filt, np.ones(nb), d, law, (lo, hi), use_memmap=memmap))
+            # single-precision storage is observed on the fitter (which formats/switches use it is an implementation choice)
+            delta = 3e-7 * (1 + float(np.max(np.abs(logm)))) if any(fitcheck.holds_float32(f_) for f_ in fitters) else 0.0
         except Exception as exc:
             ctx.violation('fit2d:fitter-construction-failed',
                           'Fitter() raised on a well-formed package: %r' % (exc,), dict(pinfo, wav=wav))
